@@ -1,14 +1,29 @@
-(* Proofs about the NFSv4.1 model: collected from the Proofs*.v files. *)
-From VF Require Import Nfs41.Model Nfs41.Dump Nfs41.Spec.
+(* Proofs about the NFSv4.1 model: entry point collecting the Proofs*.v
+   files, plus concrete reachable states used as non-vacuity examples. *)
+From VF Require Export Nfs41.Model Nfs41.Dump Nfs41.Spec Nfs41.Corr.
+From VF Require Export Nfs41.ProofsSeq Nfs41.ProofsThreads Nfs41.ProofsTheorems.
 Open Scope N_scope.
 
-(* A history that reaches a non-trivial state: two clients, an open file
-   with a lock, a request in flight with a duplicate waiting for it. *)
+(* A history that reaches a non-trivial state: a client with a session, an
+   open file with a byte-range lock, a READ in flight on it (share
+   reservation cloned), and a duplicate SEQUENCE waiting for the original. *)
 Definition cfg0 := mkConfig 2000 2 6.
 Definition demo_events : list event :=
   [ ESolo 1 (SExchangeId 0 10); ESolo 2 (SCreateSession 1 3);
     ESeqBegin 3 3 0 1 true [OPutRootFH; OOpen 0 3 0 HowUnchecked (ClaimNull 1);
-                            OLock 2 0 10 (LockerNew sid_current 1)];
-    ESection 3 FsOk; ESection 3 (FsLeaf 1);
-    ESeqBegin 4 3 0 1 true [OPutRootFH];
-    ESection 3 FsOk; ESection 3 FsOk ].
+                            OLock 2 0 10 (LockerNew sid_current 1); ORead sid_current];
+    ESection 3 FsOk; ESection 3 (FsLeaf 1); ESection 3 FsOk; ESection 3 FsOk; ESection 3 FsOk;
+    ESeqBegin 4 3 0 1 true [OPutRootFH] ].
+
+(* ... and on to the end: the READ returns, the compound completes (both
+   requests are answered), the client closes, its lease lapses. *)
+Definition demo_events_end : list event :=
+  demo_events ++
+  [ ESection 3 FsOk; ESection 3 FsOk; ESection 3 FsOk;
+    ESeqBegin 5 3 1 1 true [OPutFH 1; OClose (mkSid 0 1 0)];
+    ESection 5 FsOk; ESection 5 FsOk; ESection 5 FsOk;
+    EAdvance 5000; ESolo 6 (SBindConn 99 true) ].
+
+(* The observation of a model state, as the harness would record it. *)
+Definition obs_of (st : state) (outs : list out) : hstep :=
+  mkHStep (HAdvance 0) [] [] [] (waiters_of st) [] (fst (apply_outs outs [] [])) (flight_of st) (dump_of st).
